@@ -69,9 +69,9 @@ def nontrivial(res):
                 st.get("too_large") or st.get("quiet_checks"))
 
 
-def report(ctx, seen, what, replay):
+def report(ctx, seen, what, replay, key=None):
     """at most three replays per kind of failure"""
-    key = what.split(" (script seed")[0]
+    key = key or what.split(" (script seed")[0]
     seen[key] = seen.get(key, 0) + 1
     if seen[key] <= 3:
         ctx.violation(what, replay, signature=None)
@@ -81,6 +81,8 @@ def run_scripts(ctx, jobs, tag, procs, seen):
     results = x_c20.run_jobs(jobs, ctx.scratch(), procs=procs)
     # one retry for inconclusive runs that are not failures of the implementation
     retry = [i for i, r in enumerate(results) if r.get("inconclusive") and not r.get("fail") and not r.get("skipped")]
+    if any(r.get("fail") for r in results):
+        retry = []          # real failures were found: no time is spent on retries
     if retry:
         again = x_c20.run_jobs([jobs[i] for i in retry], ctx.scratch(), procs=max(1, procs // 2))
         for i, r in zip(retry, again):
@@ -154,6 +156,7 @@ def run(ctx):
     ctx.level = "proof"
     ctx.prove()
     procs = 8
+    seen = {}
     # ---------------------------------------------------------------- request gate
     gcases = gate_cases(ctx.rng, ctx.n(1200, 20000))
     gres = x_c20.run_jobs([dict(kind="gate", cases=gcases)], ctx.scratch(), procs=1)[0]
@@ -175,20 +178,19 @@ def run(ctx):
             if case["internal"] and ml > 0 and a[0] == "int" and a[1] > ml:
                 early = m["pref"] != "ok" or not m["method"] or m["wk"] != "none"
                 if r["invoked"] or (not early and r["status"] != 413):
-                    ctx.violation("request with declared length %d > max_content_length %d: status %d, handler invoked: %s"
-                                  % (a[1], ml, r["status"], r["invoked"]),
-                                  dict(kind="gate", case=case, result=r))
+                    report(ctx, seen, "request with declared length %d > max_content_length %d: status %d, handler invoked: %s"
+                           % (a[1], ml, r["status"], r["invoked"]),
+                           dict(kind="gate", case=case, result=r), key="gate:oversized:invoked=%s" % r["invoked"])
             if r["status"] == 413 and not (case["internal"] and ml > 0 and a[0] == "int" and a[1] > ml):
-                ctx.violation("413 for a request that does not exceed max_content_length",
-                              dict(kind="gate", case=case, result=r))
+                report(ctx, seen, "413 for a request that does not exceed max_content_length",
+                       dict(kind="gate", case=case, result=r))
         bad = ctx.diff_cases("c20_gate", x_c20.HEADER, "gate_out", pairs, x_c20.enc_gate_in, x_c20.enc_gate_out,
                              "gate_out_eqb", shard=700)
         if bad is not None:
             ctx.obligation("correspondence:gate", not bad, "gate model differs on %d cases, e.g. %r" % (
                 len(bad), [(gcases[b], gres["results"][b]) for b in bad[:3]]))
             for b in bad[:3]:
-                ctx.violation("request gate differs from the model", dict(kind="gate", case=gcases[b], result=gres["results"][b]),
-                              no_input=False)
+                report(ctx, seen, "request gate differs from the model", dict(kind="gate", case=gcases[b], result=gres["results"][b]))
     # ---------------------------------------------------------------- witness of C20_size_bound_strong_refuted
     # (outside the literal property text: recorded, never a VIOLATION unless known_findings.json lists it as known)
     SIG = "C20: negative Content-Length reaches the handler, which reads the body until EOF"
@@ -208,14 +210,16 @@ def run(ctx):
     except Exception as e:   # the witness is informative only
         ctx.notes.append("negative-length witness not evaluated: %r" % (e,))
     # ---------------------------------------------------------------- scripts against serve()
-    seen = {}
     jobs = make_jobs(ctx, ctx.n(72, 4000))
     run_scripts(ctx, jobs, "lockstep", procs, seen)
     # ---------------------------------------------------------------- the same server, free-running (real timing)
     fjobs = make_jobs(ctx, ctx.n(48, 2400))
     for j in fjobs:
         j["lockstep"] = False
-    run_scripts(ctx, fjobs, "free", procs, seen)
+    if len(ctx.violations) >= 3:
+        ctx.notes.append("free-running stage skipped: the lock-step stage already produced %d replays" % len(ctx.violations))
+    else:
+        run_scripts(ctx, fjobs, "free", procs, seen)
 
 
 def replay(ctx, path):
